@@ -164,8 +164,32 @@ class Machine:
             return e['n']
         return None
 
+    def const_array(self, vid):
+        """contents of a const-qualified local / static array with a literal initialiser (look-up tables), else None"""
+        ca = getattr(self, '_const_arrays', None)
+        if ca is None:
+            ca = {}
+            from ir import walk_stmts as _ws
+            for s_ in _ws(self.f.get('body')):
+                if s_.get('k') == 'decl':
+                    for v in s_['vars']:
+                        ini = strip(v.get('init') or {})
+                        tv = T(self.f, v['t'])
+                        if tv.get('n') is None and tv.get('arr') is None:
+                            continue
+                        if ini.get('k') == 'str':
+                            ca[v['id']] = list(ini['b']) + [0]
+                        elif ini.get('k') == 'initlist':
+                            vals = [const_val(x) for x in ini.get('items', [])]
+                            if all(x is not None for x in vals):
+                                n_ = tv.get('n') or len(vals)
+                                ca[v['id']] = (vals + [0] * n_)[:max(n_, len(vals))]
+            self._const_arrays = ca
+        return ca.get(vid)
+
     def ev(self, e, env, c):
-        """value of e: int or U.  Side effects of ++/-- on tracked variables are applied."""
+        """value of e: int, a pointer into a constant table ('ptr', array id, index), or U.
+        Side effects of ++/-- on tracked variables are applied."""
         if e is None:
             return U
         k = e.get('k')
@@ -182,6 +206,8 @@ class Machine:
             t = self.is_tracked(e)
             if t:
                 return env.vars[t]
+            if self.const_array(e.get('id')) is not None:
+                return ('ptr', e['id'], 0)
             if e.get('id') in env.locals:
                 return env.locals[e['id']]
             if 'cv' in e:
@@ -197,6 +223,8 @@ class Machine:
             if v is U:
                 return U
             ck = e.get('ck')
+            if isinstance(v, tuple):
+                return 1 if ck == 'PointerToBoolean' else v
             if ck in ('IntegralToBoolean', 'PointerToBoolean'):
                 return int(v != 0)
             if ck == 'IntegralCast':
@@ -228,10 +256,15 @@ class Machine:
                     return old if op.startswith('post') else env.locals[tgt['id']]
                 return U
             v = self.ev(e['e'], env, c)
+            if op == '*' and isinstance(v, tuple):
+                arr = self.const_array(v[1])
+                return arr[v[2]] if arr is not None and 0 <= v[2] < len(arr) else U
             if op == '*' or op == '&':
                 return U
             if v is U:
                 return U
+            if isinstance(v, tuple):
+                return 0 if op == '!' else U
             if op == '!':
                 return int(not v)
             if op == '-':
@@ -267,6 +300,24 @@ class Machine:
             a, b = self.ev(e['x'], env, c), self.ev(e['y'], env, c)
             if a is U or b is U:
                 return U
+            if isinstance(a, tuple) or isinstance(b, tuple):
+                # pointers into constant tables: difference, offset, comparison with null / each other
+                if isinstance(a, tuple) and isinstance(b, tuple):
+                    if a[1] != b[1]:
+                        return U
+                    if op == '-':
+                        return a[2] - b[2]
+                    if op in ('==', '!=', '<', '>', '<=', '>='):
+                        return int({'==': a[2] == b[2], '!=': a[2] != b[2], '<': a[2] < b[2], '>': a[2] > b[2], '<=': a[2] <= b[2], '>=': a[2] >= b[2]}[op])
+                    return U
+                p_, i_ = (a, b) if isinstance(a, tuple) else (b, a)
+                if op == '+':
+                    return ('ptr', p_[1], p_[2] + i_)
+                if op == '-' and isinstance(a, tuple):
+                    return ('ptr', a[1], a[2] - b)
+                if op in ('==', '!=') and i_ == 0:
+                    return int(op == '!=')
+                return U
             try:
                 return {'+': a + b, '-': a - b, '*': a * b, '&': a & b, '|': a | b, '^': a ^ b, '<<': a << b if 0 <= b < 64 else 0, '>>': a >> b if 0 <= b < 64 else 0,
                         '==': int(a == b), '!=': int(a != b), '<': int(a < b), '>': int(a > b), '<=': int(a <= b), '>=': int(a >= b),
@@ -284,7 +335,16 @@ class Machine:
         if k == 'call':
             return self.ev_call(e, env, c)
         if k == 'idx':
-            self.ev(e['i'], env, c)
+            bv = self.ev(e['b'], env, c)
+            iv = self.ev(e['i'], env, c)
+            if isinstance(bv, tuple) and iv is not U and not isinstance(iv, tuple):
+                arr = self.const_array(bv[1])
+                j = bv[2] + iv
+                if arr is not None and 0 <= j < len(arr):
+                    v_ = arr[j]
+                    t_ = T(self.f, e.get('t'))
+                    return bytesets.wrap(v_, t_['bits'], t_.get('sg', True)) if t_.get('bits') else v_
+                return U
             # look-behind / look-ahead through the cursor
             if any(w.get('k') == 'var' and w.get('id') == self.cursor for w in walk_expr(e['b'])):
                 self.cursor_reads.append(e.get('l', 0))
@@ -309,6 +369,21 @@ class Machine:
                     return self.kind_value(sn, kd)
                 if short == 'length':
                     return self.depth(env, sn)
+        if short in ('memchr', 'strchr') and not e.get('clsp') and len(e.get('a', [])) >= 2:
+            base = self.ev(e['a'][0], env, c)
+            ch = self.ev(e['a'][1], env, c)
+            lim = self.ev(e['a'][2], env, c) if len(e['a']) > 2 else None
+            if isinstance(base, tuple) and ch is not U and not isinstance(ch, tuple) and lim is not U:
+                arr = self.const_array(base[1])
+                if arr is not None:
+                    end = len(arr) if lim is None else min(len(arr), base[2] + lim)
+                    for j in range(base[2], end):
+                        if (arr[j] & 255) == (ch & 255):
+                            return ('ptr', base[1], j)
+                        if short == 'strchr' and arr[j] == 0:
+                            break
+                    return 0
+            return U
         if short in self.d.get('pure', ()):
             args = [self.ev(a, env, c) for a in e.get('a', [])]
             if any(a is U for a in args):
@@ -605,6 +680,8 @@ class Machine:
             finally:
                 self.f = saved_f
             return out(results)
+        if e.get('k') == 'call' and not e.get('clsp') and (short in ('memchr', 'strchr') or short in self.d.get('pure', ())):
+            return out([env], self.ev_call(e, env, c))       # side-effect-free: its value is wanted (table look-ups)
         for a in e.get('a', []):
             self.ev(a, env, c)
         if e.get('obj') is not None:
